@@ -2,6 +2,7 @@ import LdkModel.Driver.Util
 import LdkModel.Model.Bolt11
 import LdkModel.Model.Merkle
 import LdkModel.Model.OfferMeta
+import LdkModel.Model.OfferMirror
 import LdkModel.Prim.Hmac
 namespace Ldk.Driver
 open Ldk Ldk.Prim.Bech32
@@ -97,6 +98,26 @@ def mverify (payer : Bool) (key iv md tlv : List UInt8) : String :=
     | .okNoKeys => "ok"
     | .okKeys _ => "ok-keys"
 
+/-- secp256k1 evaluations handed in by the harness (`Keypair::from_secret_key`, trusted dependency):
+    `-` (none) or `<secret-hex>:<compressed-pubkey-hex>`; an unknown secret has no public key -/
+def pubTable (t : String) : List UInt8 → List UInt8 :=
+  match t.splitOn ":" with
+  | [s, p] => fun h => if h == unhex s then unhex p else []
+  | _ => fun _ => []
+
+/-- the whole verdict of verify_recipient_metadata / verify_payer_metadata_inner, including the public
+    key comparison (the translated `C18Meta.keysEq` on 33-byte compressed keys) -/
+def mkeys (payer : Bool) (key iv md pk : List UInt8) (tbl : String) (tlv : List UInt8) : String :=
+  match recordsOf tlv with
+  | none => "err malformed"
+  | some recs =>
+    let v := if payer then OfferMeta.verifyPayer Ldk.Prim.hmacSha256 (pubTable tbl) key iv pk recs md
+             else OfferMeta.verifyRecipient Ldk.Prim.hmacSha256 (pubTable tbl) key iv pk recs md
+    match v with
+    | .err => "err"
+    | .okNoKeys => "ok"
+    | .okKeys sk => "keys " ++ hex sk
+
 def mhmac (payer : Bool) (key iv md tlv : List UInt8) : String :=
   match recordsOf tlv with
   | none => "err malformed"
@@ -110,30 +131,34 @@ def mhmac (payer : Bool) (key iv md tlv : List UInt8) : String :=
     | none => "err"
     | some h => hex h
 
-/-- offer verification; in the key-deriving mode the public key comparison (secp256k1, trusted) is
-    taken as passed and the derived secret is printed -/
-def offerVerifyOp (key nonce b : List UInt8) : String :=
+/-- offer verification; in the key-deriving mode the public key of the recomputed HMAC comes from the
+    harness table and is compared with the issuer id by the translated `keysEq` -/
+def offerVerifyOp (key nonce : List UInt8) (tbl : String) (b : List UInt8) : String :=
   match Merkle.parseStream b with
   | none => "err malformed"
   | some rs =>
-    let pk := match rs.find? (fun r => r.ty == OfferMeta.OFFER_ISSUER_ID_TYPE) with
-      | some r => OfferMeta.recValue r | none => []
-    match OfferMeta.offerVerify Ldk.Prim.hmacSha256 (fun _ => pk) key (if nonce.isEmpty then none else some nonce) rs with
+    match OfferMeta.offerVerify Ldk.Prim.hmacSha256 (pubTable tbl) key (if nonce.isEmpty then none else some nonce) rs with
     | .err => "err"
     | .okNoKeys => "ok"
     | .okKeys sk => "keys " ++ hex sk
 
 /-- invoice verification by the payer; key-deriving mode as in `offerVerifyOp` -/
-def invoiceVerifyOp (key b : List UInt8) : String :=
+def invoiceVerifyOp (key : List UInt8) (tbl : String) (b : List UInt8) : String :=
   match Merkle.parseStream b with
   | none => "err malformed"
   | some rs =>
-    let pk := match rs.find? (fun r => r.ty == OfferMeta.INVOICE_REQUEST_PAYER_ID_TYPE) with
-      | some r => OfferMeta.recValue r | none => []
-    match OfferMeta.invoiceVerify Ldk.Prim.hmacSha256 (fun _ => pk) key rs with
+    match OfferMeta.invoiceVerify Ldk.Prim.hmacSha256 (pubTable tbl) key rs with
     | .err => "err"
     | .okNoKeys => "ok"
     | .okKeys _ => "ok"
+
+/-- rebuild a signed invoice request from the offer bytes / an invoice from the request's or refund's
+    bytes with the translated write plan, given the message's own records -/
+def mirrorOp (kind : String) (src payer own expOwn sig : List UInt8) : String :=
+  let plan := if kind == "req" then C18Mirror.invreqPlan else C18Mirror.invoicePlan
+  match OfferMirror.build plan src ⟨payer, own, expOwn, sig⟩ with
+  | none => "err malformed"
+  | some b => hex b
 
 end C18
 
@@ -164,8 +189,11 @@ def c18b12 : Drv where
     | ["merkle", b] => ((), C18.merkle (unhex b))
     | ["digest", t, b] => ((), C18.digest (unhex t) (unhex b))
     | ["mverify", k, key, iv, md, tlv] => ((), C18.mverify (k == "p") (unhex key) (unhex iv) (unhex md) (unhex tlv))
-    | ["invverify", key, b] => ((), C18.invoiceVerifyOp (unhex key) (unhex b))
-    | ["offerverify", key, nonce, b] => ((), C18.offerVerifyOp (unhex key) (unhex nonce) (unhex b))
+    | ["invverify", key, tbl, b] => ((), C18.invoiceVerifyOp (unhex key) tbl (unhex b))
+    | ["offerverify", key, nonce, tbl, b] => ((), C18.offerVerifyOp (unhex key) (unhex nonce) tbl (unhex b))
+    | ["mirror", kind, src, payer, own, expOwn, sig] =>
+      ((), C18.mirrorOp kind (unhex src) (unhex payer) (unhex own) (unhex expOwn) (unhex sig))
+    | ["mkeys", k, key, iv, md, pk, tbl, tlv] => ((), C18.mkeys (k == "p") (unhex key) (unhex iv) (unhex md) (unhex pk) tbl (unhex tlv))
     | ["mhmac", k, key, iv, md, tlv] => ((), C18.mhmac (k == "p") (unhex key) (unhex iv) (unhex md) (unhex tlv))
     | _ => ((), "bad-op")
 
